@@ -136,8 +136,16 @@ def eval_construct(case):
                     if c.data.shape != (len(names), len(names)) or c.data.tolist() != exp_c:
                         fail("covariance-binding", f"named_covariance over {names} with {kw}: {c.data.tolist()}, expected {exp_c}")
         # unknown names refused
-        for bad in ("q", "A_", names[0] + "x" if names else "x", "_data2"):
-            if bad in names:
+        frag = set()
+        for nm in names:
+            frag.update(nm[i:j] for i in range(len(nm)) for j in range(i + 1, len(nm) + 1))   # every substring of a declared name
+            frag.add(nm + "x")
+            frag.add(nm.swapcase())
+        if len(names) >= 2:
+            frag.update({", ".join(names[:2]), names[0] + names[1], names[0] + ","})
+        frag.update({"q", "A_", "_data2", "data", "name", ""})
+        for bad in sorted(frag):
+            if bad in names or bad in ("_data",) or not bad.isidentifier():
                 continue
             n += 1
             for cls, lab in ((V, "named_vector"), (Cv, "named_covariance")):
